@@ -254,4 +254,4 @@ def tuple_source(resources):
                         **({'primaryKey': pk} if pk else {}))}
         for (n, fields, rows, *rest) in resources for pk in [rest[0] if rest else None]]}
     its = [iter([dict(r) for r in rows]) for (n, fields, rows, *rest) in resources]
-    return load((desc, iter(its)))
+    return load((desc, iter(its)), strip=False)       # hand the rows over untouched
